@@ -214,6 +214,10 @@ class Check:
         if nmis:
             self.broken.append(("model_impl_disagreement", "correspondence %s: %d differing lines" % (self.pid, nmis),
                                 json.dumps(first, indent=1)))
+        elif sum(os.path.getsize(f) for f in (ops, imp, mod)) > 64 * 1024 * 1024:
+            # clean run with large streams (thorough tier): nothing to inspect, free the disk
+            for f in (ops, imp, mod):
+                os.remove(f)
         # implementation-only oracle failures = concrete failing inputs
         opened, _ = load_known()
         for f in summ["oracle_failures"]:
